@@ -191,6 +191,12 @@ class KeyedList(Generic[ItemType, KeyType], MutableSequence, KeyedBase):  # pyli
         self._list.insert(index, item)
         self._dict[key] = item
 
+    def reverse(self):
+        # The `MutableSequence` mixin swaps items pairwise through
+        # `__setitem__`, which transiently duplicates keys; the key index does
+        # not depend on item order, so reversing the list is sufficient.
+        self._list.reverse()
+
     def __contains__(self, value):
         try:
             if value in self._dict:
